@@ -95,7 +95,7 @@ def h_after_history(bi: int, c1: int, c2: int) -> bool:
   """
   pre: 0 <= bi < 4 and 0 <= c1 < NT and 0 <= c2 < NT
   pre: THOROUGH or c2 == 0
-  pre: (c1 * 4 + bi) % NPART == PART
+  pre: (c1 + c2 + bi) % NPART == PART
   post: _ == True
   """
   vp.enter("hh")
